@@ -11,7 +11,7 @@ PROPS = {
         "trusted": COMMON_TRUSTED,
         "assumptions": [],
         "clauses_not_decided": [
-            "DhtNetworkManager::find_closest_nodes_local is verified await-erased for the clauses 'each peer once, under a single identifier' and 'at most count'; that its answer is the CLOSEST min(count, known) peers rests on the assumed contract of its outlined sort/take tail and on DhtCoreEngine::find_nodes (opaque here) -- exercised by the native search verif_search_c02_local only; handle_lookup_request (which forwards that answer) is not extracted",
+            "DhtNetworkManager::find_closest_nodes_local is verified await-erased: each peer once under a single identifier, at most count, and no known peer that is closer than a named one is left out -- where \"known\" is (connected peers with an address) + (what DhtCoreEngine::find_nodes returned), the local node excluded; this rests on the ASSUMED contract of its outlined sort/take tail (stable sort by compare_node_distance, then a prefix); the async wrapper find_nodes and handle_lookup_request (which forwards the answer) are not extracted",
             "DhtCoreEngine::handle_request is verified in its await-erased form (both awaits are tokio RwLock acquisitions: data store, routing table; the guarded objects became parameters): sequential semantics under the two guards, no interleaving between them is explored",
         ],
         "explanation": "Contracts on DhtKey::distance, KBucket::{new, add_node, remove_node, get_nodes}, KademliaRoutingTable::{new, get_bucket_index, get_bucket_index_for_key, add_node, remove_node, find_closest_nodes}; the reply built by DhtCoreEngine::handle_request (await-erased) for FindNode is exactly find_closest_nodes(target, min(count, 20)) and never names more than 20 nodes, for FindValue it names at most K = 8 closest entries (none when the value is held); DataStore::{put, get} verified on the real field layout; DhtNetworkManager::{compare_node_distance, filter_response_nodes, find_closest_nodes_local}: the local answer over routing table plus connected peers names each peer once (duplicate filter on the DHT key) and never more than count.",
